@@ -101,6 +101,9 @@ def _damages(cls, orig, case, sibling):
         except Exception:
             pass
     out.append(("read-error", "ERR"))
+    # the same error, but only for the first one / two read attempts of every API call (a blip that is over when somebody retries)
+    out.append(("read-error-once", "ERR1"))
+    out.append(("read-error-twice", "ERR2"))
     return out
 
 
@@ -173,11 +176,17 @@ def check_table(case):
             for dname, payload in _damages(cls, orig, case, sibling):
                 # ---- apply
                 stepper = None
-                if payload == "ERR":
+                budget = [None]
+                if payload in ("ERR", "ERR1", "ERR2"):
                     stepper = Stepper()
+                    once = {"ERR": None, "ERR1": 1, "ERR2": 2}[payload]
 
-                    def fail(n, phase, label, target, info, path=path):
+                    def fail(n, phase, label, target, info, path=path, once=once):
                         if phase == "before" and target == path and (("open:" in label) or label.startswith("s3:get") or label.startswith("storage:read") or label.startswith("storage:open")):
+                            if once is not None:
+                                if budget[0] <= 0:
+                                    return
+                                budget[0] -= 1
                             if w.kind == "local":
                                 raise OSError(5, "injected read error")
                             raise client_error("InternalError", "GetObject", 500)
@@ -191,7 +200,7 @@ def check_table(case):
                     _set(w, path, payload)
                     changed = payload != orig
                     parse_ok = _parse_ok(cls, payload) and not dname.startswith("key-removed")
-                if cls != "data" and payload not in (None, "ERR") and parse_ok:
+                if cls != "data" and payload not in (None, "ERR", "ERR1", "ERR2") and parse_ok:
                     _set(w, path, orig)
                     out["labels"].append("damage-still-parses(excluded)")
                     continue
@@ -202,6 +211,21 @@ def check_table(case):
                         for (api, ver, fn), exp in expected.items():
                             needed = cls != "data" or (api != "row_count" and path in kept[fn])
                             must_raise = needed and (payload == "ERR" or not parse_ok or (cls == "data" and changed and ver is None and path not in nochecksum))
+                            if payload in ("ERR1", "ERR2"):
+                                # raising is right; so is the complete answer (somebody retried and the blip was over); nothing else is
+                                budget[0] = 1 if payload == "ERR1" else 2
+                                try:
+                                    got = _read(w.open(), api, filters[fn], ver)
+                                except Exception as e:  # noqa
+                                    got = ("raise", type(e).__name__)
+                                out["labels"].append("transient-read-error")
+                                if needed:
+                                    res_nontrivial.add(f"{case['world']}|{cls}|{dname}|{api}|{ver}|{fn}")
+                                if got[0] != "raise" and got != exp:
+                                    sym = "reported-empty" if got[0] == "rows" and not got[1] else ("returned-subset" if got[0] == "rows" and exp[0] == "rows" and not (got[1] - exp[1]) else "returned-other")
+                                    out["violations"].append((f"fail-open/{cls}/{dname}/{sym}", f"{case['world']}: the first {budget and (1 if payload == 'ERR1' else 2)} read attempt(s) of {cls} file {path} fail during {api}(verify={ver}, filter={fn}): "
+                                                              f"returned {_short(got)} instead of raising or the complete answer {_short(exp)}"))
+                                continue
                             for handle_kind in ("fresh", "warm"):
                               if handle_kind == "warm" and payload == "ERR":
                                   continue
@@ -217,7 +241,7 @@ def check_table(case):
                               _judge(out, res_nontrivial, case, cls, dname, path, api, ver, fn, exp, got, needed, must_raise, handle_kind)
                             continue
                 finally:
-                    if payload != "ERR":
+                    if payload not in ("ERR", "ERR1", "ERR2"):
                         _set(w, path, orig)
     out["nontrivial"] = bool(res_nontrivial)
     out["key"] = None
